@@ -209,7 +209,9 @@ namespace fixedmath
     [[ gnu::const, gnu::always_inline ]]
     constexpr fixed_t fixed_additioni(fixed_t lh, fixed_t rh ) noexcept
       {
-      fixed_t result { fix_carrier_t{lh.v + rh.v} };
+      //wrap around in unsigned arithmetic, signed overflow is undefined and the tests below rely on the wrapped value
+      fixed_t result { fix_carrier_t{static_cast<fixed_internal>(
+                          static_cast<fixed_internal_unsigned>(lh.v) + static_cast<fixed_internal_unsigned>(rh.v))} };
       if( fixed_unlikely(result >= 0_fix) ) 
         {
         if( fixed_unlikely((lh < 0_fix ) && ( rh < 0_fix)) )
@@ -219,6 +221,8 @@ namespace fixedmath
         {
         if( fixed_unlikely((lh > 0_fix ) && ( rh > 0_fix )) ) 
           return quiet_NaN_result();
+        if( fixed_unlikely( result.v == std::numeric_limits<fixed_internal>::min() ) )
+          return -quiet_NaN_result();
         }
       return result;
       }
@@ -301,7 +305,9 @@ namespace fixedmath
     [[ gnu::const, gnu::always_inline ]]
     constexpr fixed_t fixed_substracti(fixed_t lh, fixed_t rh) noexcept
       {
-      fixed_t result { fix_carrier_t{lh.v - rh.v}};
+      //wrap around in unsigned arithmetic, signed overflow is undefined and the tests below rely on the wrapped value
+      fixed_t result { fix_carrier_t{static_cast<fixed_internal>(
+                          static_cast<fixed_internal_unsigned>(lh.v) - static_cast<fixed_internal_unsigned>(rh.v))}};
 
       if(fixed_unlikely(result >= 0_fix)) 
         {
@@ -312,6 +318,8 @@ namespace fixedmath
         {
         if( fixed_unlikely((lh > 0_fix) && (rh < 0_fix)) )
           return quiet_NaN_result();
+        if( fixed_unlikely( result.v == std::numeric_limits<fixed_internal>::min() ) )
+          return -quiet_NaN_result();
         }
 
       return result;
